@@ -107,7 +107,7 @@ CheckRecord(k) ==
                                        <<"C19_BeforeEffect", C19_BeforeEffect(r.ann)>>,
                                        <<"C19_Transparent", IF "agree" \in DOMAIN r THEN r.agree ELSE TRUE>> >>)
              ELSE TRUE)
-         /\ (IF Strict /\ c.op \notin {"uniquify", "flatten", "q", "edif_read", "edif_rt", "vlog_read", "vlog_rt", "eblif_read", "eblif_rt", "compose2", "parse_text"}
+         /\ (IF Strict /\ ~("extra" \in DOMAIN c /\ c.extra) /\ c.op \notin {"other", "uniquify", "flatten", "q", "edif_read", "edif_rt", "vlog_read", "vlog_rt", "eblif_read", "eblif_rt", "compose2", "parse_text"}
              THEN Report("DRIFT", k, StrictClauses(pre, c, r.out, post, RetOf(r))) ELSE TRUE)
 
 Init == l = 0
